@@ -18,7 +18,6 @@ use std::fmt;
 use std::str::FromStr;
 
 use crate::message::Qtype;
-use crate::util::Caseless;
 
 ////////////////////////////////////////////////////////////////////////
 // RR TYPES                                                           //
@@ -80,27 +79,27 @@ impl FromStr for Type {
     type Err = &'static str;
 
     fn from_str(text: &str) -> Result<Self, Self::Err> {
-        match Caseless(text) {
-            Caseless("A") => Ok(Self::A),
-            Caseless("NS") => Ok(Self::NS),
-            Caseless("MD") => Ok(Self::MD),
-            Caseless("MF") => Ok(Self::MF),
-            Caseless("CNAME") => Ok(Self::CNAME),
-            Caseless("SOA") => Ok(Self::SOA),
-            Caseless("MB") => Ok(Self::MB),
-            Caseless("MG") => Ok(Self::MG),
-            Caseless("MR") => Ok(Self::MR),
-            Caseless("NULL") => Ok(Self::NULL),
-            Caseless("WKS") => Ok(Self::WKS),
-            Caseless("PTR") => Ok(Self::PTR),
-            Caseless("HINFO") => Ok(Self::HINFO),
-            Caseless("MINFO") => Ok(Self::MINFO),
-            Caseless("MX") => Ok(Self::MX),
-            Caseless("TXT") => Ok(Self::TXT),
-            Caseless("AAAA") => Ok(Self::AAAA),
-            Caseless("SRV") => Ok(Self::SRV),
-            Caseless("OPT") => Ok(Self::OPT),
-            Caseless("TSIG") => Ok(Self::TSIG),
+        match text.to_ascii_uppercase().as_str() {
+            "A" => Ok(Self::A),
+            "NS" => Ok(Self::NS),
+            "MD" => Ok(Self::MD),
+            "MF" => Ok(Self::MF),
+            "CNAME" => Ok(Self::CNAME),
+            "SOA" => Ok(Self::SOA),
+            "MB" => Ok(Self::MB),
+            "MG" => Ok(Self::MG),
+            "MR" => Ok(Self::MR),
+            "NULL" => Ok(Self::NULL),
+            "WKS" => Ok(Self::WKS),
+            "PTR" => Ok(Self::PTR),
+            "HINFO" => Ok(Self::HINFO),
+            "MINFO" => Ok(Self::MINFO),
+            "MX" => Ok(Self::MX),
+            "TXT" => Ok(Self::TXT),
+            "AAAA" => Ok(Self::AAAA),
+            "SRV" => Ok(Self::SRV),
+            "OPT" => Ok(Self::OPT),
+            "TSIG" => Ok(Self::TSIG),
             _ => {
                 if text
                     .get(0..4)
